@@ -64,6 +64,11 @@ type window struct {
 	cur, prev conf
 	open      bool
 	proxied   bool
+	// initial: the window of the torrent's creation (configured right after being added). Only in that one
+	// are observers inside this process (fake tracker, DHT hook) lenient: every SetConf is called at a
+	// quiescent cut with no virtual time passing until the cut after it, so nothing begun under the old
+	// settings can still be on its way to them. Real sockets (the web seed's server) stay lenient.
+	initial bool
 }
 
 type monitor struct {
@@ -85,6 +90,12 @@ func (m *monitor) allowed(f func(c conf) bool) bool {
 	return f(w.cur) || (w.open && f(w.prev))
 }
 
+// allowedInProcess: for observers called synchronously by storrent's own goroutines.
+func (m *monitor) allowedInProcess(f func(c conf) bool) bool {
+	w := m.w.Load()
+	return f(w.cur) || (w.open && w.initial && f(w.prev))
+}
+
 // fakeTracker records every Announce.
 type fakeTracker struct {
 	m   *monitor
@@ -96,7 +107,7 @@ func (f *fakeTracker) GetState() (tracker.State, error) { return tracker.Ready, 
 func (f *fakeTracker) Announce(ctx context.Context, hash []byte, myid []byte, want int, size int64, port4, port6 int, proxy string, cb func(netip.AddrPort) bool) error {
 	m := f.m
 	w := m.w.Load()
-	if !m.allowed(func(c conf) bool { return c.Trackers }) {
+	if !m.allowedInProcess(func(c conf) bool { return c.Trackers }) {
 		m.sw.Viol("C18", "contact", "tracker-contact-while-disabled", fmt.Sprintf("tracker announced while tracker use is off (%v)", w.cur))
 	} else {
 		m.count("tracker_contacts_allowed")
@@ -180,7 +191,7 @@ func run(t *testing.T, c *vk.C, sc scen, rng *rand.Rand) map[string]int {
 		w0 := &window{cur: sc.Initial, proxied: sc.Proxied}
 		if !sc.ViaDefault {
 			// created under all-off defaults, configured right away: both are in force until the first cut
-			w0.prev, w0.open = conf{false, false, config.DhtNone}, true
+			w0.prev, w0.open, w0.initial = conf{false, false, config.DhtNone}, true, true
 		}
 		m.w.Store(w0)
 		verifhook.SetAnnounce(func(hash []byte, ipv6 bool, port uint16) {
@@ -188,7 +199,7 @@ func run(t *testing.T, c *vk.C, sc scen, rng *rand.Rand) map[string]int {
 				return
 			}
 			w := m.w.Load()
-			if !m.allowed(func(c conf) bool { return c.Dht != config.DhtNone }) {
+			if !m.allowedInProcess(func(c conf) bool { return c.Dht != config.DhtNone }) {
 				sw.Viol("C18", "contact", "dht-announce-while-none", fmt.Sprintf("DHT announce while the DHT mode is none (%v)", w.cur))
 				return
 			}
@@ -196,7 +207,7 @@ func run(t *testing.T, c *vk.C, sc scen, rng *rand.Rand) map[string]int {
 			if port != 0 {
 				if w.proxied {
 					sw.Viol("C18", "leak", "dht-port-while-proxied", fmt.Sprintf("proxied torrent announced port %d to the DHT", port))
-				} else if !m.allowed(func(c conf) bool { return c.Dht == config.DhtNormal }) {
+				} else if !m.allowedInProcess(func(c conf) bool { return c.Dht == config.DhtNormal }) {
 					sw.Viol("C18", "leak", "dht-port-while-not-normal", fmt.Sprintf("port %d announced to the DHT in mode %v", port, w.cur.Dht))
 				} else {
 					m.count("dht_announces_with_port")
